@@ -7,10 +7,10 @@ import (
 )
 
 // runSpecial: slices that are not replica histories.
-func runSpecial(name string, seed uint64, cases int, out func(cmd, obs J), stats string) bool {
+func runSpecial(name string, seed uint64, cases, from int, out func(cmd, obs J), stats string) bool {
 	switch name {
 	case "par":
-		runParProfile(seed, cases, out, stats)
+		runParProfile(seed, cases, from, out, stats)
 		return true
 	case "conc":
 		runConcProfile(seed, cases, out, stats)
